@@ -509,6 +509,19 @@ def r5_dispatch(ctx, chk, rule="C03.5"):
                       found=show(call), construct="Solver.prune_paths call")
         return
     players = _player_set(cond, st)
+    if players is None and cond[0] == "and":
+        parts = [(c, _player_set(c, st)) for c in cond[1]]
+        ps = [p for _, p in parts if p is not None]
+        others = [c for c, p in parts if p is None]
+        harmless = (("truthy", ("attr", st, "next_states")),)
+        others = [c for c in others if c not in harmless]
+        if len(ps) == 1 and others and not any(mentions(c, lambda x: x == st) for c in others):
+            chk.violation(rule, f.where(L.node), "the pruning of dead branches is skipped for every state unless `%s`: that condition says nothing about the state's successors, "
+                          "so Player-1 / probabilistic states keep transitions into zero-probability states whenever it fails" % show(others[0] if len(others) == 1 else ("and", tuple(others)))[:160],
+                          expected="state.prune_paths(...) for every Player-1 / probabilistic state", found=show(cond)[:160], construct="Solver.prune_paths extra condition")
+            return
+        if len(ps) == 1 and not others:
+            players = ps[0]
     if players is None:
         chk.undecided(rule, f.where(L.node), "dispatch condition `%s` not recognised" % show(cond))
     elif players != {"Player 1", "Probabilistic"}:
